@@ -10,7 +10,7 @@
 use std::collections::HashMap;
 use std::time::Duration;
 
-use emit::{Emitter, Props};
+use emit::{Ctxt, Emitter, Props};
 use vh_common::*;
 use vh_enc::cv::{Fw, Pool, Reent, CV};
 use vh_enc::expect::{match_any, match_json, strs, Tables};
@@ -64,6 +64,9 @@ struct Case {
     mdl: String,
     lit: String,
     extent: Option<emit::Extent>,
+    /// how the properties reach the sink: "slice" | "and" | "ambient"; the second side starts at `split`
+    carrier: String,
+    split: usize,
 }
 
 fn ts(secs: u64, nanos: u32) -> emit::Timestamp {
@@ -118,19 +121,66 @@ fn load_cases(path: &str, long: usize) -> Vec<Case> {
             }
             o => tool_error(&format!("bad extent {o}")),
         };
-        out.push(Case { salt, spec: v.clone(), keys, cvs, fw, mdl: format!("c13::e{salt}"), lit: format!("evt{salt} "), extent });
+        let carrier = v["ev"]["carrier"].as_str().unwrap_or("slice").to_string();
+        let split = v["ev"]["split"].as_u64().map(|n| n as usize).unwrap_or(keys.len());
+        out.push(Case { salt, spec: v.clone(), keys, cvs, fw, mdl: format!("c13::e{salt}"), lit: format!("evt{salt} "), extent, carrier, split });
     });
     }
     out
 }
 
-/// Build the real event of a case and hand it to `f`.
+type TlCtxt = emit::platform::thread_local_ctxt::ThreadLocalCtxt;
+
+/// Build the real event of a case as one slice of pairs (the logical property sequence) and
+/// hand it to `f`: used for the reference rendering of message and template.
 fn with_event<R>(c: &Case, f: impl FnOnce(&emit::Event<&[(emit::Str, emit::Value)]>) -> R) -> R {
     let props: Vec<(emit::Str, emit::Value)> = c.keys.iter().zip(&c.cvs).map(|(k, v)| (emit::Str::new_ref(k), v.to_value(c.fw))).collect();
     let parts = [emit::template::Part::text_ref(&c.lit), emit::template::Part::hole_ref("a"), emit::template::Part::text_ref(" end")];
     let tpl = emit::Template::new_ref(&parts);
     let evt = emit::Event::new(emit::Path::new_owned_raw(c.mdl.clone()), tpl, c.extent.clone(), &props[..]);
     f(&evt)
+}
+
+/// Deliver the case's event to a sink through the case's carrier.  A panic is data.
+fn emit_case<E: emit::Emitter>(c: &Case, cur: u8, em: &E) -> Result<(), String> {
+    use std::collections::BTreeMap;
+    let pairs: Vec<(emit::Str, emit::Value)> = c.keys.iter().zip(&c.cvs).map(|(k, v)| (emit::Str::new_ref(k), v.to_value(c.fw))).collect();
+    let parts = [emit::template::Part::text_ref(&c.lit), emit::template::Part::hole_ref("a"), emit::template::Part::text_ref(" end")];
+    let tpl = emit::Template::new_ref(&parts);
+    let path = emit::Path::new_owned_raw(c.mdl.clone());
+    // a side of a concatenation: a map (is_unique() = true), as macro props, context frames,
+    // BTreeMap / HashMap and single pairs are
+    match c.carrier.as_str() {
+        "slice" => {
+            let evt = emit::Event::new(path, tpl, c.extent.clone(), &pairs[..]);
+            emit_to(cur, || em.emit(&evt))
+        }
+        "and" => {
+            let (l, r) = pairs.split_at(c.split);
+            let left: BTreeMap<&str, emit::Value> = l.iter().map(|(k, v)| (k.get(), v.by_ref())).collect();
+            let right: BTreeMap<&str, emit::Value> = r.iter().map(|(k, v)| (k.get(), v.by_ref())).collect();
+            if left.len() != l.len() || right.len() != r.len() {
+                tool_error("a side of an And carrier repeats a key");
+            }
+            let evt = emit::Event::new(path, tpl, c.extent.clone(), (&left).and_props(&right));
+            emit_to(cur, || em.emit(&evt))
+        }
+        "ambient" => {
+            let (l, r) = pairs.split_at(c.split);
+            let left: BTreeMap<&str, emit::Value> = l.iter().map(|(k, v)| (k.get(), v.by_ref())).collect();
+            let right: BTreeMap<&str, emit::Value> = r.iter().map(|(k, v)| (k.get(), v.by_ref())).collect();
+            let evt = emit::Event::new(path, tpl, c.extent.clone(), &left);
+            let ctxt = TlCtxt::new();
+            let mut frame = ctxt.open_root(&right);
+            ctxt.enter(&mut frame);
+            // the real path: emit_core::emit concatenates the event's props with the ambient ones
+            let res = emit_to(cur, || emit_core::emit(em, emit::Empty, &ctxt, emit::Empty, &evt));
+            ctxt.exit(&mut frame);
+            ctxt.close(frame);
+            res
+        }
+        o => tool_error(&format!("unknown carrier {o}")),
+    }
 }
 
 fn nanos(t: &emit::Timestamp) -> u64 {
@@ -148,7 +198,8 @@ fn case_json(c: &Case) -> Value {
 fn kinds_sig(c: &Case) -> String {
     // structural signature of an event: kind + shapes, without concrete values
     let props: Vec<String> = c.spec["ev"]["props"].as_array().unwrap().iter().map(|p| format!("{}:{}", p["key"].as_str().unwrap().escape_debug(), strs(&p["shape"]).join("."))).collect();
-    format!("{} [{}]", c.spec["ev"]["kind"].as_str().unwrap(), props.join(","))
+    let carrier = if c.carrier == "slice" { String::new() } else { format!(" carrier={}@{}", c.carrier, c.split) };
+    format!("{}{} [{}]", c.spec["ev"]["kind"].as_str().unwrap(), carrier, props.join(","))
 }
 
 fn id_bytes(cv: &CV) -> Vec<u8> {
@@ -528,7 +579,7 @@ fn term_child(cases: &str) {
     let colored = TERM_COLOR.get_or_init(|| emit_term::stdout().colored(true));
     for c in &cs {
         println!("@@BEGIN {}", c.salt);
-        let r = with_event(c, |evt| if c.salt % 2 == 0 { emit_to(4, || plain.emit(evt)) } else { emit_to(5, || colored.emit(evt)) });
+        let r = if c.salt % 2 == 0 { emit_case(c, 4, plain) } else { emit_case(c, 5, colored) };
         match r {
             Ok(()) => println!("\n@@END {} ok", c.salt),
             Err(p) => println!("\n@@END {} panic {}", c.salt, p.replace('\n', " ")),
@@ -624,17 +675,17 @@ fn main() {
         with_event(c, |evt| {
             run.msg = evt.msg().to_string();
             run.tpl = evt.tpl().to_string();
-            if let Err(p) = emit_to(1, || file.emit(evt)) {
-                run.panics.push(("file".into(), p));
-            }
-            if let Err(p) = emit_to(2, || otlp_proto.emit(evt)) {
-                run.panics.push(("otlp-proto".into(), p));
-            }
-            if let Err(p) = emit_to(3, || otlp_json.emit(evt)) {
-                run.panics.push(("otlp-json".into(), p));
-            }
             let _ = evt.props().get("a");
         });
+        if let Err(p) = emit_case(c, 1, file) {
+            run.panics.push(("file".into(), p));
+        }
+        if let Err(p) = emit_case(c, 2, otlp_proto) {
+            run.panics.push(("otlp-proto".into(), p));
+        }
+        if let Err(p) = emit_case(c, 3, otlp_json) {
+            run.panics.push(("otlp-json".into(), p));
+        }
         runs.push(run);
         if n % 1024 == 1023 {
             drain(&mut proto_recs, &mut json_recs, &mut decode_errors);
